@@ -274,6 +274,25 @@ def generated_reset_observations(tier):
                                  "engine": "generated", "params": {k: v for k, v in p.items()},
                                  "detail": {"fully_obs": fo, "flat_obs": f1, "problem": prob}})
                     break
+    # reset(seed=k) for non-negative ints of any size (Gymnasium's contract): still the (observation, info) tuple
+    try:
+        sc_ = nasim.generate_scenario(num_hosts=5, num_services=2, seed=0)
+        e_ = NASimEnv(sc_)
+        for k in (0, 1, 2 ** 31, 2 ** 32, 2 ** 63 + 5):
+            try:
+                r_ = e_.reset(seed=k)
+                n += 1
+                okk = isinstance(r_, tuple) and len(r_) == 2 and isinstance(r_[1], dict) and e_.observation_space.contains(r_[0])
+                prob_ = None if okk else "reset(seed=%d) did not return (observation in space, info dict)" % k
+            except Exception as e:
+                prob_ = "reset(seed=%d) raised %s: %s" % (k, type(e).__name__, str(e)[:80])
+            if prob_:
+                viol.append({"property": "C10", "kind": "reset_with_seed_violates_the_contract", "engine": "generated_pair",
+                             "params": {"num_hosts": 5, "num_services": 2, "seed": 0}, "pair": [],
+                             "detail": {"fully_obs": False, "flat_obs": True, "problem": prob_}})
+                break
+    except HarnessError:
+        raise
     # two LIVE environments with one vector layout (common address_space_bounds - what that parameter is for) but a
     # different number of hosts, stepped in turn with failing and succeeding draws: each one's observations must stay
     # members of ITS OWN space
@@ -303,6 +322,18 @@ def generated_reset_observations(tier):
                                              "detail": {"fully_obs": fo, "flat_obs": True, "victim": who, "action": i,
                                                         "problem": f"shape {np.asarray(ob).shape} vs space {want}"}})
                                 raise StopIteration
+                # closing ONE environment must leave the other one usable: all its actions again, succeeding draws
+                ea.close()
+                eb.reset()
+                for i in range(min(int(eb.action_space.n), 60)):
+                    sm.arm(1e-9)
+                    ob, *_ = eb.step(i)
+                    n += 1
+                    if not eb.observation_space.contains(ob):
+                        viol.append({"property": "C10", "kind": "observation_violates_space:after_another_environment_was_closed",
+                                     "engine": "generated_pair", "params": pb, "pair": [pa, pb],
+                                     "detail": {"fully_obs": fo, "flat_obs": True, "action": i, "problem": "outside space after close() of the other environment"}})
+                        raise StopIteration
             except StopIteration:
                 pass
             except HarnessError:
